@@ -39,42 +39,6 @@ Proof.
       * destruct H as [[H|H] Hn]; auto.
 Qed.
 
-(* ------------------------------------------------------------------ the queue predicate *)
-Definition drop (x : N) (d : list N) : list N := filter (fun y => negb (N.eqb y x)) d.
-
-Lemma drop_in x d y : In y (drop x d) <-> In y d /\ y <> x.
-Proof.
-  unfold drop. rewrite filter_In. rewrite negb_true_iff, N.eqb_neq. tauto.
-Qed.
-
-Fixpoint okq (d : list N) (q : list kraw) : Prop :=
-  match q with
-  | [] => True
-  | e :: q' => In (k_wd e) d /\ okq (if Emitter.is_ignored (k_mask e) then drop (k_wd e) d else d) q'
-  end.
-
-Lemma okq_mono q : forall d d', (forall x, In x d -> In x d') -> okq d q -> okq d' q.
-Proof.
-  induction q as [|e q IH]; simpl; intros d d' Hs H; [exact I|].
-  destruct H as [H1 H2]. split; [auto|].
-  destruct (Emitter.is_ignored (k_mask e)).
-  - apply IH with (d := drop (k_wd e) d); [|exact H2].
-    intros x Hx. apply drop_in in Hx as [Hx Hn]. apply drop_in. auto.
-  - apply IH with (d := d); auto.
-Qed.
-
-Lemma okq_snoc q : forall d e,
-  okq d q -> In (k_wd e) d ->
-  (forall e', In e' q -> Emitter.is_ignored (k_mask e') = true -> k_wd e' <> k_wd e) ->
-  okq d (q ++ [e]).
-Proof.
-  induction q as [|a q IH]; simpl; intros d e H Hin Hno.
-  - split; [exact Hin | exact I].
-  - destruct H as [H1 H2]. split; [exact H1|]. apply IH; [exact H2 | | intros; apply Hno; auto].
-    destruct (Emitter.is_ignored (k_mask a)) eqn:E; [|exact Hin].
-    apply drop_in. split; [exact Hin|]. intros Heq. apply (Hno a); auto.
-Qed.
-
 Lemma kpush_cases q e : kpush q e = q \/ kpush q e = q ++ [e].
 Proof. unfold kpush. destruct (rev q); [auto|]. destruct (kraw_eqb k e); auto. Qed.
 
@@ -83,7 +47,6 @@ Definition rdom (r : rstate) : list N := map fst (pfw r).
 
 Record KI (pending : list kraw) (k : kst) (r : rstate) : Prop := {
   ki_live : forall w, In w (k_watches k) -> In (kw_wd w) (rdom r);
-  ki_q : okq (rdom r) (pending ++ k_queue k);
   ki_noign : forall e, In e (pending ++ k_queue k) -> Emitter.is_ignored (k_mask e) = true ->
                        forall w, In w (k_watches k) -> kw_wd w <> k_wd e;
   ki_nodup : NoDup (map kw_wd (k_watches k));
@@ -94,12 +57,14 @@ Record KI (pending : list kraw) (k : kst) (r : rstate) : Prop := {
 Lemma ki_init : KI [] kinit rinit0.
 Proof. constructor; simpl; try (intros; contradiction); auto. constructor. Qed.
 
-(* the reader learns more descriptors / changes other fields: the invariant survives *)
+(* the reader's table changes in a way that keeps every live descriptor known: the invariant survives *)
 Lemma ki_grow pending k r r' :
+  KI pending k r -> (forall w, In w (k_watches k) -> In (kw_wd w) (rdom r')) -> KI pending k r'.
+Proof. intros [H1 H3 H4 H5 H6] Hs. constructor; auto. Qed.
+
+Lemma ki_sup pending k r r' :
   KI pending k r -> (forall x, In x (rdom r) -> In x (rdom r')) -> KI pending k r'.
-Proof.
-  intros [H1 H2 H3 H4 H5 H6] Hs. constructor; auto. eapply okq_mono; eauto.
-Qed.
+Proof. intros H Hs. eapply ki_grow; [exact H|]. intros w Hw. apply Hs. destruct H as [L _ _ _ _]. auto. Qed.
 
 Lemma find_some_in {A} f (l : list A) x : find f l = Some x -> In x l /\ f x = true.
 Proof. apply find_some. Qed.
@@ -115,12 +80,10 @@ Lemma ki_push pending k r e :
   KI pending {| k_watches := k_watches k; k_next_wd := k_next_wd k; k_queue := kpush (k_queue k) e;
                 k_next_cookie := k_next_cookie k |} r.
 Proof.
-  intros [H1 H2 H3 H4 H5 H6] [w [Hw Hwd]] Hni.
+  intros [H1 H3 H4 H5 H6] [w [Hw Hwd]] Hni.
   destruct (kpush_cases (k_queue k) e) as [Hc|Hc]; simpl.
   - constructor; simpl; rewrite ?Hc; auto.
   - constructor; simpl; rewrite ?Hc; auto.
-    + rewrite app_assoc. apply okq_snoc; [exact H2 | rewrite <- Hwd; auto |].
-      intros e' He' Hi Heq. apply (H3 e' He' Hi w Hw). congruence.
     + intros e' He' Hi. rewrite app_assoc in He'. apply in_app_iff in He' as [He'|[<-|[]]]; [eauto | congruence].
     + intros e' He'. rewrite app_assoc in He'. apply in_app_iff in He' as [He'|[<-|[]]]; [eauto|].
       rewrite <- Hwd. auto.
@@ -176,6 +139,31 @@ Proof.
   - exfalso. apply Hna. rewrite <- Heq. apply in_map. exact Hw.
 Qed.
 
+(* a watch disappears (inode gone, or inotify_rm_watch): it is filtered out and IN_IGNORED is queued for it *)
+Lemma ki_unwatch pending k r wd :
+  KI pending k r -> (exists w, In w (k_watches k) /\ kw_wd w = wd) ->
+  KI pending {| k_watches := filter (fun x => negb (N.eqb (kw_wd x) wd)) (k_watches k); k_next_wd := k_next_wd k;
+                k_queue := kpush (k_queue k) {| k_wd := wd; k_mask := IN_IGNORED; k_cookie := 0; k_name := [] |};
+                k_next_cookie := k_next_cookie k |} r.
+Proof.
+  intros [L NI ND BW BQ] [w [Hw Hwd]].
+  set (e := {| k_wd := wd; k_mask := IN_IGNORED; k_cookie := 0; k_name := [] |}).
+  assert (Hlive : forall x, In x (filter (fun x0 => negb (N.eqb (kw_wd x0) wd)) (k_watches k)) ->
+                            In x (k_watches k) /\ kw_wd x <> wd) by (intros x Hx; apply in_filter_wd; exact Hx).
+  destruct (kpush_cases (k_queue k) e) as [Hc|Hc]; constructor; simpl; rewrite ?Hc.
+  - intros x Hx. apply Hlive in Hx as [Hx _]. auto.
+  - intros e' He' Hi x Hx. apply Hlive in Hx as [Hx _]. eauto.
+  - apply nodup_map_filter. exact ND.
+  - intros x Hx. apply Hlive in Hx as [Hx _]. auto.
+  - exact BQ.
+  - intros x Hx. apply Hlive in Hx as [Hx _]. auto.
+  - intros e' He' Hi x Hx. apply Hlive in Hx as [Hx Hne]. rewrite app_assoc in He'.
+    apply in_app_iff in He' as [He'|[<-|[]]]; [eauto | simpl; exact Hne].
+  - apply nodup_map_filter. exact ND.
+  - intros x Hx. apply Hlive in Hx as [Hx _]. auto.
+  - intros e' He'. rewrite app_assoc in He'. apply in_app_iff in He' as [He'|[<-|[]]]; [auto | simpl; subst wd; auto].
+Qed.
+
 Lemma ki_kgone pending k r ino attrib_first : KI pending k r -> KI pending (kgone k ino attrib_first) r.
 Proof.
   intros H. unfold kgone. destruct (watch_of_ino k ino) as [w|] eqn:E; [|exact H].
@@ -187,33 +175,29 @@ Proof.
   assert (Hw2 : k_watches k2 = k_watches k /\ k_next_wd k2 = k_next_wd k).
   { unfold k2. destruct (knotify_watches k1 ino IN_DELETE_SELF false 0 []) as [-> ->].
     unfold k1. destruct attrib_first; [apply knotify_watches | auto]. }
-  destruct Hw2 as [Hw2 Hn2]. destruct H2 as [L Q NI ND BW BQ]. rewrite Hw2 in *.
-  set (e := {| k_wd := kw_wd w; k_mask := IN_IGNORED; k_cookie := 0; k_name := [] |}).
-  assert (Hnoprev : forall e', In e' (pending ++ k_queue k2) -> Emitter.is_ignored (k_mask e') = true -> k_wd e' <> kw_wd w).
-  { intros e' He' Hi Heq. apply (NI e' He' Hi w Hw). auto. }
-  rewrite Hn2 in BW, BQ.
-  assert (Hlive : forall x, In x (filter (fun x0 => negb (N.eqb (kw_wd x0) (kw_wd w))) (k_watches k)) ->
-                            In x (k_watches k) /\ kw_wd x <> kw_wd w) by (intros x Hx; apply in_filter_wd; exact Hx).
-  destruct (kpush_cases (k_queue k2) e) as [Hc|Hc]; constructor; simpl; rewrite ?Hc, ?Hn2.
-  - intros x Hx. apply Hlive in Hx as [Hx _]. auto.
-  - exact Q.
-  - intros e' He' Hi x Hx. apply Hlive in Hx as [Hx _]. eauto.
-  - apply nodup_map_filter. exact ND.
-  - intros x Hx. apply Hlive in Hx as [Hx _]. auto.
-  - exact BQ.
-  - intros x Hx. apply Hlive in Hx as [Hx _]. auto.
-  - rewrite app_assoc. apply okq_snoc; [exact Q | simpl; auto | exact Hnoprev].
-  - intros e' He' Hi x Hx. apply Hlive in Hx as [Hx Hne]. rewrite app_assoc in He'.
-    apply in_app_iff in He' as [He'|[<-|[]]]; [eauto | simpl; exact Hne].
-  - apply nodup_map_filter. exact ND.
-  - intros x Hx. apply Hlive in Hx as [Hx _]. auto.
-  - intros e' He'. rewrite app_assoc in He'. apply in_app_iff in He' as [He'|[<-|[]]]; [auto | simpl; auto].
+  destruct Hw2 as [Hw2 Hn2].
+  apply (ki_unwatch pending k2 r (kw_wd w) H2). exists w. split; [rewrite Hw2; exact Hw | reflexivity].
+Qed.
+
+(* inotify_rm_watch on a descriptor the reader no longer maps (or never did): live descriptors stay known *)
+Lemma ki_krm pending k r wd : KI pending k r -> KI pending (krm_watch k wd) r.
+Proof.
+  intros H. unfold krm_watch. destruct (find (fun w => N.eqb (kw_wd w) wd) (k_watches k)) as [w|] eqn:E; [|exact H].
+  apply find_some in E as [Hw Hwd]. apply N.eqb_eq in Hwd. apply ki_unwatch; [exact H|]. exists w. auto.
+Qed.
+
+Lemma krm_watches k wd x : In x (k_watches (krm_watch k wd)) -> In x (k_watches k) /\ kw_wd x <> wd.
+Proof.
+  unfold krm_watch. destruct (find (fun w => N.eqb (kw_wd w) wd) (k_watches k)) as [w|] eqn:E; simpl.
+  - apply in_filter_wd.
+  - intros Hx. split; [exact Hx|]. intros Heq.
+    apply (find_none _ _ E) in Hx. apply N.eqb_neq in Hx. contradiction.
 Qed.
 
 Lemma ki_cookie pending k r c :
   KI pending k r ->
   KI pending {| k_watches := k_watches k; k_next_wd := k_next_wd k; k_queue := k_queue k; k_next_cookie := c |} r.
-Proof. intros [H1 H2 H3 H4 H5 H6]. constructor; auto. Qed.
+Proof. intros [H1 H3 H4 H5 H6]. constructor; auto. Qed.
 
 Lemma ki_kernel_op k r t o : KI [] k r -> KI [] (kernel_op k t o) r.
 Proof.
@@ -233,13 +217,13 @@ Section Reader.
   Variable C : cfg.
 
   Lemma ki_bump pending k r : KI pending k r -> KI pending k (bump r).
-  Proof. intros H. eapply ki_grow; eauto. Qed.
+  Proof. intros H. eapply ki_sup; eauto. Qed.
 
   Lemma kadd_watch_ki pending k r t p mask k' wd :
     KI pending k r -> kadd_watch k t p mask = Some (k', wd) ->
     forall r', (forall x, In x (rdom r') <-> x = wd \/ In x (rdom r)) -> KI pending k' r'.
   Proof.
-    intros [L Q NI ND BW BQ] Hk r' Hd. unfold kadd_watch in Hk.
+    intros [L NI ND BW BQ] Hk r' Hd. unfold kadd_watch in Hk.
     destruct (flookup p t) as [e|]; [|discriminate].
     destruct (watch_of_ino k (f_ino e)) as [w|] eqn:E; inversion Hk; subst; clear Hk.
     - (* already watched: mask replaced *)
@@ -254,7 +238,6 @@ Section Reader.
         destruct (N.eqb (kw_wd y) (kw_wd w)); subst; reflexivity. }
       constructor; simpl.
       + intros x Hx. destruct (Hin x Hx) as [y [Hy <-]]. apply Hd. right. auto.
-      + eapply okq_mono; [|exact Q]. intros x Hx. apply Hd. auto.
       + intros e' He' Hi x Hx. destruct (Hin x Hx) as [y [Hy <-]]. eauto.
       + rewrite Hmap. exact ND.
       + intros x Hx. destruct (Hin x Hx) as [y [Hy <-]]. auto.
@@ -262,7 +245,6 @@ Section Reader.
     - (* a new watch with a fresh descriptor *)
       constructor; simpl.
       + intros x Hx. apply in_app_iff in Hx as [Hx|[<-|[]]]; apply Hd; [right; auto | left; reflexivity].
-      + eapply okq_mono; [|exact Q]. intros x Hx. apply Hd. auto.
       + intros e' He' Hi x Hx. apply in_app_iff in Hx as [Hx|[<-|[]]]; [eauto|].
         simpl. apply BQ in He'. lia.
       + rewrite map_app. simpl. clear -ND BW. induction (k_watches k) as [|a l IH]; simpl.
@@ -327,11 +309,9 @@ Section Reader.
       + inversion Ha; subst. apply ki_bump. exact H.
   Qed.
 
-  Lemma ki_tail e rest k r :
-    KI (e :: rest) k r -> Emitter.is_ignored (k_mask e) = false -> KI rest k r.
+  Lemma ki_tail e rest k r : KI (e :: rest) k r -> KI rest k r.
   Proof.
-    intros [L Q NI ND BW BQ] Hni. constructor; auto.
-    - simpl in Q. rewrite Hni in Q. tauto.
+    intros [L NI ND BW BQ]. constructor; auto.
     - intros e' He'. apply NI. right. exact He'.
     - intros e' He'. apply BQ. right. exact He'.
   Qed.
@@ -340,61 +320,98 @@ Section Reader.
     KI (e :: rest) k r -> Emitter.is_ignored (k_mask e) = true ->
     (forall x, In x (rdom r') <-> In x (rdom r) /\ x <> k_wd e) -> KI rest k r'.
   Proof.
-    intros [L Q NI ND BW BQ] Hi Hd. constructor; auto.
+    intros [L NI ND BW BQ] Hi Hd. constructor; auto.
     - intros w Hw. apply Hd. split; [auto|]. apply (NI e); [left; reflexivity | exact Hi | exact Hw].
-    - simpl in Q. rewrite Hi in Q. destruct Q as [_ Q]. eapply okq_mono; [|exact Q].
-      intros x Hx. apply drop_in in Hx. apply Hd. exact Hx.
     - intros e' He'. apply NI. right. exact He'.
     - intros e' He'. apply BQ. right. exact He'.
   Qed.
 
+  (* _forget_tree: whenever an entry of _path_for_wd goes, the watch goes with it *)
+  Lemma forget_tree_ki pending p keys : forall r k r' k',
+    KI pending k r -> forget_tree keys p r k = (r', k') -> KI pending k' r'.
+  Proof.
+    induction keys as [|[q x] keys IH]; simpl; intros r k r' k' H Hf.
+    - inversion Hf; subst. exact H.
+    - destruct (beqb q p || starts (p ++ [sep]) q); [|eauto].
+      destruct (alookup beqb q (wfp r)) as [wd|]; [|eauto].
+      assert (H1 : KI pending k {| wfp := aremove beqb q (wfp r); pfw := pfw r; mvf := mvf r; calls := calls r; pend := pend r |})
+        by (eapply ki_sup; [exact H | auto]).
+      destruct (alookup N.eqb wd (pfw r)) as [q'|]; [|eauto].
+      destruct (beqb q' q); [|eauto].
+      eapply IH; [|exact Hf].
+      eapply ki_grow; [apply ki_krm; exact H1|].
+      intros w Hw. apply krm_watches in Hw as [Hw Hne]. unfold rdom. simpl. apply aremove_dom.
+      split; [|exact Hne]. destruct H as [L _ _ _ _]. apply L. exact Hw.
+  Qed.
+
+  Lemma settle_pending_ki pending r k e r' k' :
+    KI pending k r -> settle_pending C r k e = (r', k') -> KI pending k' r'.
+  Proof.
+    intros H Hs. unfold settle_pending in Hs. destruct (c_fix_moveout C); [|inversion Hs; subst; exact H].
+    destruct (pend r) as [[c p]|]; [|inversion Hs; subst; exact H].
+    assert (H0 : KI pending k {| wfp := wfp r; pfw := pfw r; mvf := mvf r; calls := calls r; pend := None |})
+      by (eapply ki_sup; [exact H | auto]).
+    destruct (is_moved_to (k_mask e) && N.eqb (k_cookie e) c && amem N.eqb (k_wd e) (pfw r)); [inversion Hs; subst; exact H0|].
+    eapply forget_tree_ki; eauto.
+  Qed.
+
   Hypothesis Hfix_ign : c_fix_ignored C = true.
   Hypothesis Hfix_sim : c_fix_simulate C = true.
+  Hypothesis Hfix_mo : c_fix_moveout C = true.
 
-  (* one raw event: no crash, invariant for what remains *)
-  Lemma read_one_ki t e rest r k acc :
+  (* the loop body for one raw event: no crash, invariant for what remains *)
+  Lemma read_one_body_ki t e rest r k acc :
     KI (e :: rest) k r ->
-    exists r' k' acc', read_one C t (r, k, acc) e = Done (r', k', acc') /\ KI rest k' r'.
+    exists r' k' acc', read_one_body C t (r, k, acc) e = Done (r', k', acc') /\ KI rest k' r'.
   Proof.
-    intros H. unfold read_one.
-    assert (Hhead : In (k_wd e) (rdom r)) by (destruct H as [_ Q _ _ _ _]; simpl in Q; tauto).
-    destruct (alookup_in _ _ Hhead) as [wd_path ->].
+    intros H. unfold read_one_body.
+    destruct (alookup N.eqb (k_wd e) (pfw r)) as [wd_path|] eqn:Ewd.
+    2: { rewrite Hfix_mo. do 3 eexists. split; [reflexivity|]. eapply ki_tail; eauto. }
+    assert (Hhead : In (k_wd e) (rdom r)) by (eapply alookup_some_in; eauto).
     set (m := k_mask e).
     set (src_path := match k_name e with [] => wd_path | _ :: _ => join wd_path (k_name e) end).
     (* the move branches: the invariant still holds for the whole pending list, the domain only grows *)
     set (MV := if is_moved_from m then _ else _).
-    assert (HMV : exists r1 k1 ev1, MV = (r1, k1, ev1) /\ KI (e :: rest) k1 r1).
+    assert (HMV : exists r1 k1 ev1, MV = (r1, k1, ev1) /\ KI (e :: rest) k1 r1 /\ In (k_wd e) (rdom r1)).
     { unfold MV. destruct (is_moved_from m).
-      { do 3 eexists. split; [reflexivity|]. eapply ki_grow; eauto. }
-      destruct (is_moved_to m); [|do 3 eexists; split; [reflexivity | exact H]].
+      { do 3 eexists. split; [reflexivity|]. split; [eapply ki_sup; eauto | exact Hhead]. }
+      destruct (is_moved_to m); [|do 3 eexists; split; [reflexivity | split; [exact H | exact Hhead]]].
+      assert (Hdirs : forall ps r0 k0, add_dirs C r k t ps = (r0, k0) -> In (k_wd e) (rdom r0)).
+      { intros ps. generalize Hhead. generalize r k. induction ps as [|p ps IH]; simpl; intros ra ka Ha r0 k0 Hd.
+        - inversion Hd; subst. exact Ha.
+        - destruct (add_watch C ra ka t p) as [[[r2 k2] wd2]|] eqn:Ea.
+          + eapply IH; [|exact Hd]. unfold add_watch in Ea. destruct (mem_nat (calls ra) (c_faults C)); [discriminate|].
+            destruct (kadd_watch ka t p (c_mask C)) as [[k3 w3]|]; [|discriminate]. inversion Ea; subst.
+            unfold rdom. simpl. apply aset_dom. auto.
+          + inversion Hd; subst. exact Ha. }
       assert (Hmovein : forall ev' : raw,
         exists r1 k1 ev1,
           (if c_fix_movein C && c_recursive C && is_directory m && fisdir src_path t
            then let '(r', k') := add_dirs C r k t (src_path :: walk_dirs t src_path) in (r', k', ev')
-           else (r, k, ev')) = (r1, k1, ev1) /\ KI (e :: rest) k1 r1).
+           else (r, k, ev')) = (r1, k1, ev1) /\ KI (e :: rest) k1 r1 /\ In (k_wd e) (rdom r1)).
       { intros ev'. destruct (c_fix_movein C && c_recursive C && is_directory m && fisdir src_path t).
         - destruct (add_dirs C r k t (src_path :: walk_dirs t src_path)) as [r' k'] eqn:Ea.
-          do 3 eexists. split; [reflexivity|]. eapply add_dirs_ki; eauto.
-        - do 3 eexists. split; [reflexivity | exact H]. }
+          do 3 eexists. split; [reflexivity|]. split; [eapply add_dirs_ki; eauto | eapply Hdirs; eauto].
+        - do 3 eexists. split; [reflexivity | split; [exact H | exact Hhead]]. }
       destruct (alookup N.eqb (k_cookie e) (mvf r)) as [msrc|]; [|apply Hmovein].
       destruct (alookup beqb msrc (wfp r)) as [mwd|]; [|apply Hmovein].
       do 3 eexists. split; [reflexivity|].
       destruct (c_recursive C).
-      - eapply ki_grow; [exact H|]. intros x Hx. apply rekey_loop_dom. unfold rdom. simpl. apply aset_dom. auto.
-      - eapply ki_grow; [exact H|]. intros x Hx. unfold rdom. simpl. apply aset_dom. auto. }
-    destruct HMV as [r1 [k1 [ev1 [-> H1]]]].
+      - split; [eapply ki_sup; [exact H | intros x Hx] | ]; apply rekey_loop_dom; unfold rdom; simpl; apply aset_dom; auto.
+      - split; [eapply ki_sup; [exact H | intros x Hx] | ]; unfold rdom; simpl; apply aset_dom; auto. }
+    destruct HMV as [r1 [k1 [ev1 [-> [H1 Hhead1]]]]].
     (* ignored *)
-    assert (Hhead1 : In (k_wd e) (rdom r1)) by (destruct H1 as [_ Q _ _ _ _]; simpl in Q; tauto).
     destruct (Emitter.is_ignored m) eqn:Eign.
     - destruct (alookup_in _ _ Hhead1) as [path ->].
-      set (rp := {| wfp := wfp r1; pfw := aremove N.eqb (k_wd e) (pfw r1); mvf := mvf r1; calls := calls r1 |}).
+      set (rp := {| wfp := wfp r1; pfw := aremove N.eqb (k_wd e) (pfw r1); mvf := mvf r1; calls := calls r1; pend := pend r1 |}).
       assert (Hrp : forall r2, pfw r2 = pfw rp -> KI rest k1 r2).
       { intros r2 Hp. eapply ki_tail_ignored; [exact H1 | exact Eign |].
         intros x. unfold rdom. rewrite Hp. unfold rp. simpl. apply aremove_dom. }
       assert (Hr2 : exists r2,
         match alookup beqb path (wfp rp) with
         | Some w => if N.eqb w (k_wd e)
-                    then Done {| wfp := aremove beqb path (wfp rp); pfw := pfw rp; mvf := mvf rp; calls := calls rp |}
+                    then Done {| wfp := aremove beqb path (wfp rp); pfw := pfw rp; mvf := mvf rp; calls := calls rp;
+                                 pend := pend rp |}
                     else Done rp
         | None => if c_fix_ignored C then Done rp else Crash SITE_IGNORED
         end = Done r2 /\ pfw r2 = pfw rp).
@@ -413,6 +430,15 @@ Section Reader.
         * apply simulate_ki; [exact Hfix_sim|]. eapply add_watch_ki; eauto.
         * do 3 eexists. split; [reflexivity|]. apply ki_bump. exact H2.
       + do 3 eexists. split; [reflexivity | exact H2].
+  Qed.
+
+  (* one raw event: settle the pending move-out candidate, then the loop body *)
+  Lemma read_one_ki t e rest r k acc :
+    KI (e :: rest) k r ->
+    exists r' k' acc', read_one C t (r, k, acc) e = Done (r', k', acc') /\ KI rest k' r'.
+  Proof.
+    intros H. unfold read_one. destruct (settle_pending C r k e) as [r0 k0] eqn:Es.
+    apply read_one_body_ki. eapply settle_pending_ki; eauto.
   Qed.
 
   Lemma read_batch_ki t b : forall r k acc,
@@ -441,6 +467,7 @@ Section Pipe.
   Variable P : pcfg.
   Hypothesis Hfix_ign : c_fix_ignored (pc_reader P) = true.
   Hypothesis Hfix_sim : c_fix_simulate (pc_reader P) = true.
+  Hypothesis Hfix_mo : c_fix_moveout (pc_reader P) = true.
 
   Definition PI (s : pstate) : Prop := KI [] (p_k s) (p_r s).
 
@@ -453,8 +480,8 @@ Section Pipe.
       set (k0 := {| k_watches := k_watches (p_k s); k_next_wd := k_next_wd (p_k s);
                     k_queue := skipn n (k_queue (p_k s)); k_next_cookie := k_next_cookie (p_k s) |}).
       assert (H0 : KI (firstn n (k_queue (p_k s))) k0 (p_r s)).
-      { destruct H as [L Q NI ND BW BQ]. simpl in *. constructor; simpl; rewrite ?firstn_skipn; auto. }
-      destruct (read_batch_ki (pc_reader P) Hfix_ign Hfix_sim (w_fs (p_world s)) _ (p_r s) k0 [] H0)
+      { destruct H as [L NI ND BW BQ]. simpl in *. constructor; simpl; rewrite ?firstn_skipn; auto. }
+      destruct (read_batch_ki (pc_reader P) Hfix_ign Hfix_sim Hfix_mo (w_fs (p_world s)) _ (p_r s) k0 [] H0)
         as [r' [k' [evs [-> H1]]]].
       destruct (number (pc_reader P) (p_next s) evs) as [nevs tbl].
       destruct (gstep (pc_delay P) (p_buf s) (RRead nevs)); [|eauto].
@@ -488,14 +515,24 @@ Section Pipe.
     intros Hi. destruct (prun_safe h s0 [] (pinit_pi _ _ Hi)) as [s' [obs [Hr _]]]. eauto.
   Qed.
 
+  (* every live kernel watch is known to the reader; an IN_IGNORED record still queued never refers to a live watch
+     (so the clean-up it triggers cannot forget a live descriptor); descriptors are never re-used *)
   Theorem descriptors_known w s0 h s' obs : pinit P w = Some s0 -> prun P s0 h [] = Done (s', obs) ->
     (forall x, In x (k_watches (p_k s')) -> In (kw_wd x) (map fst (pfw (p_r s')))) /\
-    okq (map fst (pfw (p_r s'))) (k_queue (p_k s')).
+    (forall e, In e (k_queue (p_k s')) -> Emitter.is_ignored (k_mask e) = true ->
+               forall x, In x (k_watches (p_k s')) -> kw_wd x <> k_wd e) /\
+    NoDup (map kw_wd (k_watches (p_k s'))).
   Proof.
     intros Hi Hr.
     destruct (prun_safe h s0 [] (pinit_pi w s0 Hi)) as [s2 [o2 [Hr2 HP]]].
-    rewrite Hr in Hr2. inversion Hr2; subst. destruct HP as [L Q _ _ _ _]. split; [exact L | exact Q].
+    rewrite Hr in Hr2. inversion Hr2; subst. destruct HP as [L NI ND _ _]. split; [exact L|]. split; [exact NI | exact ND].
   Qed.
+
+  (* a record for a descriptor the reader does not (or no longer) know is skipped: no event, no state change
+     beyond settling the pending move-out candidate *)
+  Lemma unknown_descriptor_skipped t r k acc e :
+    alookup N.eqb (k_wd e) (pfw r) = None -> read_one_body (pc_reader P) t (r, k, acc) e = Done (r, k, acc).
+  Proof. intros H. unfold read_one_body. now rewrite H, Hfix_mo. Qed.
 End Pipe.
 
 Lemma root_deleted_event full recursive root content e :
